@@ -540,7 +540,7 @@ def batchStep (tok : List String) (impl : String) : Verdict :=
     | _, _ => .bad "batch result"
   | _ => .bad "batch"
 
-def codecStep (st : Unit) (tok : List String) (impl : String) : Unit × Verdict :=
+def codecStep0 (st : Unit) (tok : List String) (impl : String) : Unit × Verdict :=
   match tok with
   | ["reset"] => (st, verdictOf "-" impl)
   | ["rd", b, _chunk] =>
@@ -656,6 +656,31 @@ def codecStep (st : Unit) (tok : List String) (impl : String) : Unit × Verdict 
         else (st, verdictOf "closed alive" impl (some (impl == "closed alive")))
       | .err _ => (st, verdictOf "closed alive" impl (some (impl == "closed alive")))
   | _ => (st, .bad "op")
+
+/-- a child process that could not be brought up / died while decoding: the decoder is total in EVERY process -/
+def procFailed (impl : String) : Bool :=
+  impl = "procdead" || impl = "noproc" || impl = "noctor" || impl = "nologin"
+
+/-- the bound is a property of the process in every configuration (`C17.proc_limit_constant`): the same ops against a
+    frps / a process / a frpc built with the configuration profile; the model does not look at the profile -/
+def codecStep (st : Unit) (tok : List String) (impl : String) : Unit × Verdict :=
+  match tok with
+  | ["pfirst", _profile, b] => codecStep0 st ["first", b] impl
+  | "psess" :: _profile :: rest => codecStep0 st ("sess" :: rest) impl
+  | ["prd", _profile, _who, b, chunk] =>
+    if procFailed impl then (st, .diff "a-decoder-in-that-process" (some false)) else codecStep0 st ["rd", b, chunk] impl
+  | ["pinto", _profile, _who, b, chunk] =>
+    if procFailed impl then (st, .diff "a-decoder-in-that-process" (some false)) else codecStep0 st ["into", b, chunk] impl
+  | ["pcli", _profile, _phase, b] =>
+    -- client/service.go login (ReadMsgInto of the LoginResp) / client/control.go (msg.Dispatcher on the control
+    -- stream): a frame the decoder refuses ends the login / the session.  Decided by framing alone.
+    match unhx b with
+    | none => (st, .bad "pcli")
+    | some inp =>
+      match (decodeFull maxLen C17.known inp).res with
+      | .err .msgType | .err .maxLen | .err .negLen => (st, verdictOf "closed" impl (some (impl == "closed")))
+      | _ => if procFailed impl then (st, .diff "a-live-frpc" none) else (st, .skip "frame not refused by framing alone")
+  | _ => codecStep0 st tok impl
 
 def codec : Engine := { State := Unit, init := (), step := codecStep }
 
